@@ -98,7 +98,9 @@ def _real_data(model, pattern):
     pr = [min(max(float(model.get(f"pr{k}") or (3000.0 - 100 * k)), 500.0), 4000.0) for k in range(n)]
     pr = [np.nan if pattern[k] == "nan" else pr[k] for k in range(n)]
     gas = [0.0 if pattern[k] == "zero" else np.nan if pattern[k] == "gasnan" else abs(gas[k]) + 1e-3 for k in range(n)]
-    return pd.DataFrame({"Days": np.arange(n) + 1, "Gas": gas, "Pressure": pr, "Extra": np.arange(n)})
+    # "extragap": a productive day with a pressure reading whose OTHER column (water rate, choke, ...) has a gap: it stays
+    extra = [np.nan if pattern[k] == "extragap" else float(k) for k in range(n)]
+    return pd.DataFrame({"Days": np.arange(n) + 1, "Gas": gas, "Pressure": pr, "Extra": extra})
 
 
 def _dup_labels(n):
@@ -299,11 +301,11 @@ def job_fit(job, pattern, filt, window, pvt_desc=False, dup_labels=False):
     pattern = tuple(pattern) + ("sure",) * FILLER      # enough surely-productive days for tau's range [30, 2(n-1)] to be non-empty
     n = len(pattern)
     job.bound(production_rows=n, rows_with_uncertain_production=len(short))
-    gas = [Q(0) if pattern[k] == "zero" else pd_shim.NA if pattern[k] == "gasnan" else fresh(f"gas{k}", pos=(pattern[k] == "sure")) for k in range(n)]
+    gas = [Q(0) if pattern[k] == "zero" else pd_shim.NA if pattern[k] == "gasnan" else fresh(f"gas{k}", pos=(pattern[k] in ("sure", "extragap"))) for k in range(n)]
     prs = [pd_shim.NA if pattern[k] == "nan" else fresh(f"pr{k}", pos=True) for k in range(n)]
     days = [Q(k + 1) for k in range(n)]
     frame = pd_shim.SymFrame()
-    frame.cols = {"Days": SymArray(days, "f8"), "Gas": SymArray(gas, "f8"), "Pressure": SymArray(prs, "f8"), "Extra": SymArray([Q(7)] * n, "f8")}
+    frame.cols = {"Days": SymArray(days, "f8"), "Gas": SymArray(gas, "f8"), "Pressure": SymArray(prs, "f8"), "Extra": SymArray([pd_shim.NA if pattern[k] == "extragap" else Q(7) for k in range(n)], "f8")}
     if dup_labels:
         # two monthly exports joined with pd.concat without ignore_index: every label occurs twice; rows are days, not labels
         frame.index_labels = _dup_labels(n)
@@ -359,7 +361,7 @@ def job_fit(job, pattern, filt, window, pvt_desc=False, dup_labels=False):
                 continue
             if pattern[j] in ("nan", "zero", "gasnan"):
                 continue
-            if pattern[j] == "sure":
+            if pattern[j] in ("sure", "extragap"):
                 keep.append(j)
                 continue
             d = [v for b, v in pr.ctx.decisions if True]
@@ -444,6 +446,7 @@ def jobs(tier):
                 continue
             for w in (None, 1):
                 out.append((f"fit-{'-'.join(p)}-{filt}-{w}", lambda j, p=p, f=filt, w=w: job_fit(j, p, f, w)))
+    out.append(("fit-ok-extragap-ok-True-None", lambda j: job_fit(j, ("ok", "extragap", "ok"), True, None)))
     out.append(("fit-ok-ok-ok-True-None-pvt-descending", lambda j: job_fit(j, ("ok", "ok", "ok"), True, None, True)))
     out.append(("fit-ok-zero-ok-ok-True-None-row-labels-repeat", lambda j: job_fit(j, ("ok", "zero", "ok", "ok"), True, None, False, True)))
     return out
